@@ -8,6 +8,7 @@ import (
 	"os"
 	"strings"
 	"sync"
+	"sync/atomic"
 
 	"github.com/oasisprotocol/oasis-core/go/common/crypto/hash"
 	"github.com/oasisprotocol/oasis-core/go/storage/mkvs/node"
@@ -28,6 +29,15 @@ func main() {
 		runC06(ev.Parse("model_checking"))
 	case "C07":
 		runC07(ev.Parse("fault_enumeration"))
+	case "hist":
+		// development aid: dbmc hist <backend> '<json list of letters>' runs one history without crashes
+		var h []L
+		if err := json.Unmarshal([]byte(os.Args[3]), &h); err != nil {
+			fmt.Println(err)
+			os.Exit(2)
+		}
+		_, what := runHistoryLoose(os.Args[2], h)
+		fmt.Println("result:", what)
 	case "crash-child":
 		crashChild()
 	case "recover-child":
@@ -257,6 +267,100 @@ func runC06(r *ev.Run) {
 		r.Add("states", int64(len(seen)))
 		r.Set("states_"+backend, len(seen))
 		r.Set("letter_depth_"+backend, level)
+	}
+	// Restore histories: after [commit(v1,add2) finalize(v1)] every applicable sequence of up to D letters
+	// over {start a restore into the next or the next-but-one version, import any not yet imported chunk,
+	// abort, finalize the restored root, commit / finalize a normal candidate of the next version};
+	// full read-back after every letter.  An aborted restore must leave nothing behind that a later
+	// restore or a later normal version trips over.
+	{
+		D := 7
+		if thoroughTier {
+			D = 9
+		}
+		prefix := []L{{Op: "commit", V: 1, Batch: "add2"}, {Op: "finalize", V: 1}}
+		menu := func(e *env) []L {
+			m := e.ref
+			var ls []L
+			if m.mp != nil {
+				for i := range m.mp.chunks {
+					ls = append(ls, L{Op: "mpchunk", V: m.mp.version, Chunk: i})
+				}
+				ls = append(ls, L{Op: "mpabort", V: m.mp.version}, L{Op: "mpfinalize", V: m.mp.version})
+			} else {
+				ls = append(ls, L{Op: "mpstart", V: m.last + 1}, L{Op: "mpstart", V: m.last + 2},
+					L{Op: "commit", V: m.last + 1, Batch: "add"}, L{Op: "commit", V: m.last + 1, Batch: "mod"}, L{Op: "finalize", V: m.last + 1})
+			}
+			var out []L
+			for _, l := range ls {
+				if e.applicable(l) {
+					out = append(out, l)
+				}
+			}
+			return out
+		}
+		var nHist, nTrans atomic.Int64
+		var explore func(be string, h []L, depth int)
+		explore = func(be string, h []L, depth int) {
+			e, what := runHistoryLoose(be, h)
+			nHist.Add(1)
+			nTrans.Add(int64(len(h)))
+			var next []L
+			if e != nil && what == "" && depth < D {
+				next = menu(e)
+			}
+			if e != nil {
+				e.ndb.Close()
+			}
+			if what != "" {
+				if strings.HasPrefix(what, "harness:") {
+					r.HarnessError("%s [%s]", what, historyString(h))
+				} else {
+					r.Violate(ev.Violation{Engine: "dbmc", Key: fmt.Sprintf("c06 %s [%s]", be, historyString(h)), What: fmt.Sprintf("%s, history [%s]: %s", be, historyString(h), what), Artefact: c06Artefact{Backend: be, History: h}})
+				}
+				return
+			}
+			for _, l := range next {
+				explore(be, append(append([]L{}, h...), l), depth+1)
+			}
+		}
+		// work items: the applicable histories of 2 letters per backend
+		type item struct {
+			be string
+			h  []L
+		}
+		var items []item
+		for _, be := range []string{"badger", "pathbadger"} {
+			e0, w0 := runHistoryLoose(be, prefix)
+			if w0 != "" || e0 == nil {
+				r.HarnessError("restore histories: prefix failed on %s: %s", be, w0)
+				continue
+			}
+			l1 := menu(e0)
+			e0.ndb.Close()
+			for _, a := range l1 {
+				h1 := append(append([]L{}, prefix...), a)
+				e1, w1 := runHistoryLoose(be, h1)
+				if e1 == nil || w1 != "" {
+					items = append(items, item{be, h1}) // reported by explore
+					continue
+				}
+				l2 := menu(e1)
+				e1.ndb.Close()
+				if len(l2) == 0 {
+					items = append(items, item{be, h1})
+				}
+				for _, b := range l2 {
+					items = append(items, item{be, append(append([]L{}, h1...), b)})
+				}
+			}
+		}
+		ev.ParallelRange(len(items), r.Seed, func(i int) {
+			explore(items[i].be, items[i].h, len(items[i].h)-len(prefix))
+		})
+		r.Add("transitions", nTrans.Load())
+		r.Add("restore_histories", nHist.Load())
+		r.Set("restore_history_depth", D)
 	}
 	// Three competing candidates: after [commit(v1,add2) finalize(v1)] every ordered triple of distinct
 	// batches is committed as three candidates of version 2, any of them is finalized, one more version is
